@@ -64,16 +64,26 @@ unsafe impl GlobalAlloc for Scan {
         if ARMED.load(Ordering::Acquire) {
             scan(ptr, l.size());
         }
+        if HYGIENE.load(Ordering::Acquire) {
+            // nothing stale survives a release: a later block that is only partly written can then not show bytes that
+            // the HARNESS (or an earlier, already reported release) left behind
+            std::ptr::write_bytes(ptr, 0, l.size());
+        }
         System.dealloc(ptr, l)
     }
     unsafe fn realloc(&self, ptr: *mut u8, l: Layout, new_size: usize) -> *mut u8 {
-        if ARMED.load(Ordering::Acquire) {
+        if ARMED.load(Ordering::Acquire) || HYGIENE.load(Ordering::Acquire) {
             // make the move explicit so that the released block can be inspected
             let nl = Layout::from_size_align_unchecked(new_size, l.align());
             let np = System.alloc(nl);
             if !np.is_null() {
                 std::ptr::copy_nonoverlapping(ptr, np, l.size().min(new_size));
-                scan(ptr, l.size());
+                if ARMED.load(Ordering::Acquire) {
+                    scan(ptr, l.size());
+                }
+                if HYGIENE.load(Ordering::Acquire) {
+                    std::ptr::write_bytes(ptr, 0, l.size());
+                }
                 System.dealloc(ptr, l);
             }
             np
@@ -81,6 +91,12 @@ unsafe impl GlobalAlloc for Scan {
             System.realloc(ptr, l, new_size)
         }
     }
+}
+
+/// wipe every block on release (switched on for the heap-scanning scenario)
+pub static HYGIENE: std::sync::atomic::AtomicBool = std::sync::atomic::AtomicBool::new(false);
+pub fn set_hygiene(on: bool) {
+    HYGIENE.store(on, Ordering::Release);
 }
 
 pub fn clear() {
